@@ -37,6 +37,9 @@ def cases(draw):
         recipe = draw(gen.problem_recipe(families=OUTSIDE, densities=(10, 10, 6, 12), styles=True, offsets=True))
     else:
         recipe = draw(gen.problem_recipe(densities=(10, 10, 6, 12), styles=True, offsets=True))
+    if draw(st.integers(0, 5)) == 0:
+        # an integer-valued box handed over as Python int lists or an integer array (as GKLS writes its bounds)
+        recipe = draw(gen.int_box_recipe(dims=(1, 2, 3, 4, 5), densities=(10, 6, 12), families=OUTSIDE))
     iters = st.one_of(st.sampled_from([1, 2, 3, 20, 40, 100, 400, 2000]), st.integers(5, 400))
     params = draw(gen.solver_params(recipe["n"], recipe["density"], iters, cheap=True))
     case = {"recipe": recipe, "params": params, "refine": draw(st.integers(0, 3)) > 0}
@@ -44,8 +47,14 @@ def cases(draw):
         # the refinement is requested explicitly (Solver.DoLocalRefinement(k), k = -1 means 5 % of itersLimit) after a
         # few global iterations, possibly twice
         case["explicit"] = {"steps": draw(st.integers(1, min(40, max(1, params["itersLimit"])))),
-                            "k": draw(st.sampled_from([0, 1, 1, 2, 5, 20, -1])), "twice": draw(st.booleans())}
+                            "k": draw(st.sampled_from([0, 1, 1, 2, 5, 20, -1])), "twice": draw(st.booleans()),
+                            # ... more global iterations, then another refinement
+                            "more": draw(st.sampled_from([0, 0, 5, 20, 60])),
+                            "k2": draw(st.sampled_from([1, 5, 20, -1]))}
         case["refine"] = True
+    if draw(st.integers(0, 3)) == 0:
+        # another solver runs in the same process after this one has returned its result
+        case["decoy"] = draw(gen.problem_recipe(dims=(1, 2, 3)))
     return case
 
 
@@ -75,10 +84,21 @@ def body(case):
         with contextlib.redirect_stdout(run.out):
             for _ in range(2 if ex["twice"] else 1):
                 run.solver.DoLocalRefinement(ex["k"])
+        if ex.get("more"):
+            try:
+                run.step(ex["more"])
+            except Exception as e:
+                if "outside of interval" not in str(e):
+                    raise
+            with contextlib.redirect_stdout(run.out):
+                run.solver.DoLocalRefinement(ex["k2"])
         sol = run.results()
     else:
         run = Run(recipe, case["params"], refine=case["refine"])
         sol = run.solve()
+    if case.get("decoy") is not None:
+        decoy = Run(case["decoy"], {"r": 2.5, "eps": 1e-2, "itersLimit": 30}, record=False)
+        decoy.solve()
     lo, hi = recipe["lower"], recipe["upper"]
     tol = [1e-12 * (abs(a) + abs(b) + (b - a)) for a, b in zip(lo, hi)]
 
@@ -99,7 +119,17 @@ def body(case):
     if case["refine"]:
         if nglob > len(log) or nglob < 1:
             fail("numberOfGlobalTrials=%r inconsistent with %d logged evaluations" % (nglob, len(log)))
-        gbest = min(v for _, _, v in log[:nglob])
+        if ex and ex.get("more"):
+            # global and local evaluations alternate: every evaluation made so far counts ("never worse than the
+            # best global-phase trial" a fortiori: not worse than the best global trial among them)
+            # global trials = the evaluations at the evolvent images of the stored curve coordinates
+            from iOpt.evolvent.evolvent import Evolvent
+            ev = Evolvent(recipe["lower"], recipe["upper"], run.n, run.density())
+            images = {tuple(float(c) for c in ev.GetImage(it.GetX())) for it in list(run.solver.searchData)[1:-1]}
+            gl = [v for _, y, v in log if y in images]
+            gbest = min(gl) if gl else min(v for _, _, v in log)
+        else:
+            gbest = min(v for _, _, v in log[:nglob])
         if val > gbest:
             fail("refinement returned value %r worse than the best global-phase trial %r" % (val, gbest))
         re = run.problem.value_at(pt)
@@ -108,6 +138,8 @@ def body(case):
     out = leaves_box(recipe["obj"])
     classes = ["N=%d" % run.n, "refine=%s" % case["refine"], "family=" + recipe["obj"]["family"],
                "explicit-DoLocalRefinement" if ex else "via-Solve",
+               "int-typed-bounds" if (recipe.get("style") or {}).get("bounds") else "float-bounds",
+               "decoy-solver" if case.get("decoy") is not None else "no-decoy",
                "descent-leaves-box=%s" % out, "local-evals>0" if len(log) > nglob else "local-evals=0"]
     return (case["refine"] and out), classes, {"case": case, "global": nglob, "local": len(log) - nglob}
 
